@@ -240,6 +240,102 @@ proof fn lemma_unknown_setting_is_ignored(s: Seq<u8>, m: Map<SettingId, VarInt>)
 {
 }
 
+// ---- SettingsBuilder and the endpoint's local SETTINGS (C16) ------------------------------------
+// assumed std contract of `HashMap::insert` (insert or overwrite)
+#[verifier::external_body]
+fn settings_insert(settings: &mut Settings, id: SettingId, value: VarInt)
+    ensures final(settings)@ == old(settings)@.insert(id, value),
+{
+    unimplemented!()
+}
+
+//@ extract wtransport-proto/src/settings.rs >> struct SettingsBuilder
+//@ end
+
+impl Settings {
+//@ extract wtransport-proto/src/settings.rs >> impl Settings >> fn builder
+//@ ensures r.0@ == Map::<SettingId, VarInt>::empty()
+//@ end
+}
+
+impl SettingsBuilder {
+//@ extract wtransport-proto/src/settings.rs >> impl SettingsBuilder >> fn qpack_max_table_capacity
+//@ substw `self.0 .0.insert(` => `settings_insert(&mut self.0, `
+//@ resub `&mut self\.0` => `&mut this.0`
+//@ resub `\(mut self\b` => `(self`
+//@ resub `\n(\s*)self\n` => `\n\1this\n`
+//@ prologue let mut this = self;
+//@ ensures r.0@ == self.0@.insert(SettingId::QPackMaxTableCapacity, value)
+//@ end
+
+//@ extract wtransport-proto/src/settings.rs >> impl SettingsBuilder >> fn qpack_blocked_streams
+//@ substw `self.0 .0.insert(` => `settings_insert(&mut self.0, `
+//@ resub `&mut self\.0` => `&mut this.0`
+//@ resub `\(mut self\b` => `(self`
+//@ resub `\n(\s*)self\n` => `\n\1this\n`
+//@ prologue let mut this = self;
+//@ ensures r.0@ == self.0@.insert(SettingId::QPackBlockedStreams, value)
+//@ end
+
+//@ extract wtransport-proto/src/settings.rs >> impl SettingsBuilder >> fn enable_connect_protocol
+//@ substw `self.0 .0 .insert(` => `settings_insert(&mut self.0, `
+//@ resub `&mut self\.0` => `&mut this.0`
+//@ resub `\(mut self\b` => `(self`
+//@ resub `\n(\s*)self\n` => `\n\1this\n`
+//@ prologue let mut this = self;
+//@ ensures r.0@ == self.0@.insert(SettingId::EnableConnectProtocol, VarInt(1))
+//@ end
+
+//@ extract wtransport-proto/src/settings.rs >> impl SettingsBuilder >> fn enable_webtransport
+//@ substw `self.0 .0 .insert(` => `settings_insert(&mut self.0, `
+//@ resub `&mut self\.0` => `&mut this.0`
+//@ resub `\(mut self\b` => `(self`
+//@ resub `\n(\s*)self\n` => `\n\1this\n`
+//@ prologue let mut this = self;
+//@ ensures r.0@ == self.0@.insert(SettingId::EnableWebTransport, VarInt(1))
+//@ end
+
+//@ extract wtransport-proto/src/settings.rs >> impl SettingsBuilder >> fn enable_h3_datagrams
+//@ substw `self.0 .0.insert(` => `settings_insert(&mut self.0, `
+//@ resub `&mut self\.0` => `&mut this.0`
+//@ resub `\(mut self\b` => `(self`
+//@ resub `\n(\s*)self\n` => `\n\1this\n`
+//@ prologue let mut this = self;
+//@ ensures r.0@ == self.0@.insert(SettingId::H3Datagram, VarInt(1))
+//@ end
+
+//@ extract wtransport-proto/src/settings.rs >> impl SettingsBuilder >> fn webtransport_max_sessions
+//@ substw `self.0 .0.insert(` => `settings_insert(&mut self.0, `
+//@ resub `&mut self\.0` => `&mut this.0`
+//@ resub `\(mut self\b` => `(self`
+//@ resub `\n(\s*)self\n` => `\n\1this\n`
+//@ prologue let mut this = self;
+//@ ensures r.0@ == self.0@.insert(SettingId::WebTransportMaxSessions, value)
+//@ end
+
+//@ extract wtransport-proto/src/settings.rs >> impl SettingsBuilder >> fn build
+//@ ensures r == self.0
+//@ end
+}
+
+// What the endpoint advertises on its control stream (driver: LocalSettingsStream::empty builds the
+// SETTINGS it later sends): WebTransport, HTTP/3 datagrams and extended CONNECT enabled, a
+// zero-capacity QPACK dynamic table with no blocked streams, one session. The struct literal
+// wrapping the settings into the stream object is dropped (R8). (`mut self` receivers of the builder
+// methods are re-expressed as `let mut this = self;` - Verus does not support `mut self`.)
+//@ extract wtransport/src/driver/streams/settings.rs >> impl LocalSettingsStream >> fn empty
+//@ subst `fn empty() -> Self` => `fn local_settings() -> Settings`
+//@ substw `Self { stream: None, settings, }` => `settings`
+//@ ensures
+//@ | r@ == Map::<SettingId, VarInt>::empty()
+//@ |     .insert(SettingId::QPackMaxTableCapacity, VarInt(0))
+//@ |     .insert(SettingId::QPackBlockedStreams, VarInt(0))
+//@ |     .insert(SettingId::EnableConnectProtocol, VarInt(1))
+//@ |     .insert(SettingId::EnableWebTransport, VarInt(1))
+//@ |     .insert(SettingId::H3Datagram, VarInt(1))
+//@ |     .insert(SettingId::WebTransportMaxSessions, VarInt(1))
+//@ end
+
 } // verus!
 
 fn main() {}
